@@ -134,7 +134,7 @@ def _eval(node: Any, path: str, attempt: int, me: str) -> Any:
     if kind == "raise":
         if attempt in node[2] or not node[2]:
             _raise(node[1], f"{path}#{attempt}")
-        return f"ok-after-{attempt}"
+        return 100 + attempt  # "succeeded on attempt k"
     if kind == "sum":
         total = node[1]
         for i, ch in enumerate(node[2]):
